@@ -38,7 +38,7 @@ func selectorPath(e ast.Expr) (root string, path []string, slices [][]string, id
 	return "", nil, nil, nil, false
 }
 
-func coqStrList(xs []string) string {
+func coqStrListHttpcfg(xs []string) string {
 	q := make([]string, len(xs))
 	for i, x := range xs {
 		q[i] = coqString(x)
@@ -49,7 +49,7 @@ func coqStrList(xs []string) string {
 func coqStrListList(xs [][]string) string {
 	q := make([]string, len(xs))
 	for i, x := range xs {
-		q[i] = coqStrList(x)
+		q[i] = coqStrListHttpcfg(x)
 	}
 	if len(q) == 0 {
 		return "[]"
@@ -298,7 +298,7 @@ func genC35(g *gen) {
 	g.line("Open Scope string_scope.")
 	g.line("Definition gen_redact_paths : list (list string) := %s.", coqStrListList(redactPaths))
 	g.line("Definition gen_string_leaves : list (list string) := %s.", coqStrListList(leaves))
-	g.line("Definition gen_unknown_types : list string := %s.", coqStrList(unknown))
+	g.line("Definition gen_unknown_types : list string := %s.", coqStrListHttpcfg(unknown))
 	g.line("Definition gen_redacted_returns_receiver : N := %d.", returnsReceiver)
 	g.line("Definition gen_redact_calls_inside_matching_range_loops : bool := %s.", coqBool(loopsOK))
 	g.line("Definition gen_written_slices : list (list string) := %s.", coqStrListList(writtenSlices))
